@@ -104,7 +104,12 @@ def run(tier, rng, C):
         params = [(S('x'), rng.choice([I(3), S('ex'), B(True)])), (S('m'), M(('q', I(1)))), (S('v'), rich_value(rng, 3)),
                   (S('w'), rich_value(rng, 2))]
         if i % 7 == 0:
-            params.append((S('bad'), S(rng.choice(['${nope}', '${bad}', '${x:y}']))))     # failing render
+            # failing render / failing load: a reference that cannot be resolved, a tagged value or a mapping that
+            # rewrites its own constant key -- as a parameter value and below list elements
+            params.append((S('bad'), rng.choice([S('${nope}'), S('${bad}'), S('${x:y}'),
+                                                 ('t', '!secret', S('foo')), ('l', [('t', '!secret', S('foo'))]),
+                                                 ('l', [I(1), ('m', [(S('=foo'), I(1)), (S('foo'), I(2))])]),
+                                                 ('m', [(S('deep'), ('l', [('l', [('t', '!x', I(1))])]))])])))
         inv.classes[('c.yml',)] = G.doc([], ['app1', '~app2'], ('m', params[:3]))
         cls = ['c'] + (['missing.cls'] if i % 11 == 0 else [])
         inv.nodes[('n.yml',)] = G.doc(cls, ['app2'], ('m', params[3:]))
@@ -165,6 +170,11 @@ def run(tier, rng, C):
                 parts = dict(p.split(' ', 1) if ' ' in p else (p, '') for p in o[3:].split(' || '))
                 if parts.get('A') != parts.get('DA') or parts.get('C') != parts.get('DC') or parts.get('N') != parts.get('DN') or parts.get('SAME') != 'T':
                     fail(c, 'py:as_dict-differs', 'Inventory.as_dict() differs from the attribute views', o)
+                continue
+            if ' ## ' not in o:
+                # the call did not come back with a Python-side and a Rust-side observation: a panic (PanicException),
+                # an abort or a hang instead of a value or a ValueError
+                fail(c, 'py:panic', 'the Python call ended in %s instead of a value or a ValueError' % C.describe(o)[:200], o)
                 continue
             pyside, rust = o.split(' ## ')
             if rust.startswith('err '):
